@@ -198,14 +198,18 @@ def import_shapes(tier):
     third = "Third DEFINITIONS AUTOMATIC TAGS ::= BEGIN Aux ::= NULL END"
     CL = {'Alpha1': ('Alpha', [('default-kind', 'value')]), 'Alpha2': ('Alpha', [('default-kind', 'value'), ('default-colour', 'value')]), 'Other': ('Other', [('Misc', 'type')]), 'Third': ('Third', [('Aux', 'type')])}
     orders = [['Alpha1'], ['Alpha1', 'Other'], ['Other', 'Alpha1'], ['Other', 'Third', 'Alpha2'], ['Other', 'Alpha2', 'Third'], ['Alpha2', 'Other', 'Third']]
-    for order in orders:
+    # the name of an UNRELATED imported type may be a prefix / an extension / a substring of the governing type's name
+    variants = [(o, 'Misc') for o in orders] + [(o, nm) for o in (['Alpha1', 'Other'], ['Other', 'Alpha1']) for nm in ('Kin', 'Kinds', 'Ind', 'Ki')]
+    for order, misc in variants:
+        other = f"Other DEFINITIONS AUTOMATIC TAGS ::= BEGIN {misc} ::= BOOLEAN END"
+        CL['Other'] = ('Other', [(misc, 'type')])
         for via_third in (False, True):
             if via_third and 'Alpha2' in order:
                 continue
             imports = [CL[c] for c in order]
             imp = ' '.join(', '.join(s for s, _ in syms) + ' FROM ' + mn for mn, syms in imports)
             # several definitions of every kind in the importing module (each carries its own pointer to the module header)
-            body = "Aa ::= BOOLEAN Ta ::= SEQUENCE { k INTEGER DEFAULT 1" + (", m Misc" if 'Other' in order else '') + (", a Aux" if 'Third' in order else '') + " } Zz ::= NULL aval INTEGER ::= 1 zval BOOLEAN ::= TRUE"
+            body = "Aa ::= BOOLEAN Ta ::= SEQUENCE { k INTEGER DEFAULT 1" + (f", m {misc}" if 'Other' in order else '') + (", a Aux" if 'Third' in order else '') + " } Zz ::= NULL aval INTEGER ::= 1 zval BOOLEAN ::= TRUE"
             mods = [alpha2 if via_third else alpha] + ([gamma] if via_third else []) + ([other] if 'Other' in order else []) + ([third] if 'Third' in order else [])
             text = '\n'.join([f"Ma DEFINITIONS AUTOMATIC TAGS ::= BEGIN IMPORTS {imp}; {body} END"] + mods)
             tys = {'Kind', 'Colour'} if 'Alpha2' in order else {'Kind'}
@@ -214,7 +218,7 @@ def import_shapes(tier):
                 info['extra_uses'] = {'Gamma': tys}
             else:
                 info['assoc'] = {'Alpha': tys}
-            out.append((f"C12 imported value with governing type clauses[{','.join(order)}]{' type defined in a third module' if via_third else ''}", text, info))
+            out.append((f"C12 imported value with governing type clauses[{','.join(order)}]{' type defined in a third module' if via_third else ''}{'' if misc == 'Misc' else ' next to an imported type ' + misc}", text, info))
     return out
 
 
